@@ -191,11 +191,16 @@ func c01CountConflicts(prev []*chain.Transaction, tx *chain.Transaction) int {
 	return n
 }
 
-func c01Processor(metrics *chain.ChainMetrics, rules *genesis.Rules, cores, fetch int) *chain.Processor {
+// c01Processor returns a processor and the function that releases its signature workers.
+func c01Processor(metrics *chain.ChainMetrics, rules *genesis.Rules, cores, fetch int) (*chain.Processor, func()) {
 	w := workers.NewSerial()
 	if cores > 1 {
 		w = workers.NewParallel(cores, 100)
 	}
+	return c01NewProcessor(metrics, rules, w, cores, fetch), w.Stop
+}
+
+func c01NewProcessor(metrics *chain.ChainMetrics, rules *genesis.Rules, w workers.Workers, cores, fetch int) *chain.Processor {
 	return chain.NewProcessor(trace.Noop, &logging.NoLog{}, &genesis.ImmutableRuleFactory{Rules: rules}, w,
 		hAuthEngines{}, hMeta, hBalance, &validitywindowtest.MockTimeValidityWindow[*chain.Transaction]{}, metrics,
 		chain.Config{TargetBuildDuration: time.Hour, TransactionExecutionCores: cores, StateFetchConcurrency: fetch, TargetTxsSize: 1 << 30})
@@ -224,7 +229,9 @@ func c01Execute(ctx context.Context, metrics *chain.ChainMetrics, b *c01Block, c
 	}
 	ch := make(chan res, 1)
 	go func() {
-		o, err := c01Processor(metrics, rules, cores, fetch).Execute(ctx, b.db, chain.NewExecutionBlock(blk), true)
+		p, stop := c01Processor(metrics, rules, cores, fetch)
+		o, err := p.Execute(ctx, b.db, chain.NewExecutionBlock(blk), true)
+		stop()
 		ch <- res{o, err}
 	}()
 	select {
